@@ -3,7 +3,7 @@ use std::{
     future::Future,
     pin::Pin,
     sync::{
-        atomic::{AtomicBool, AtomicU64, Ordering::SeqCst},
+        atomic::{AtomicU64, Ordering::SeqCst},
         Arc, Mutex,
     },
     task::{Context, Poll, Waker},
@@ -11,49 +11,50 @@ use std::{
 
 use crate::core::{Ch, K_SELECT, K_TASK};
 
+/// Quiescence detector: `parked()` is called by the runtime right before it would park the
+/// thread, i.e. exactly when no task is runnable. Any number of waiters may wait for the next
+/// such event.
 #[derive(Default)]
 pub struct Idle {
-    flag: AtomicBool,
-    waker: Mutex<Option<Waker>>,
+    gen: AtomicU64,
+    wakers: Mutex<Vec<Waker>>,
     pub parks: AtomicU64,
 }
 
 impl Idle {
     fn parked(&self) {
-        self.flag.store(true, SeqCst);
+        self.gen.fetch_add(1, SeqCst);
         self.parks.fetch_add(1, SeqCst);
-        if let Some(w) = self.waker.lock().unwrap().take() {
+        let ws: Vec<Waker> = std::mem::take(&mut *self.wakers.lock().unwrap());
+        for w in ws {
             w.wake();
+        }
+    }
+    pub fn generation(&self) -> u64 {
+        self.gen.load(SeqCst)
+    }
+    /// Ready if an idle event happened after generation `since`; registers the waker otherwise.
+    pub fn poll_since(&self, since: u64, cx: &mut Context<'_>) -> Poll<u64> {
+        let g = self.gen.load(SeqCst);
+        if g > since {
+            return Poll::Ready(g);
+        }
+        self.wakers.lock().unwrap().push(cx.waker().clone());
+        // re-check (the callback runs on this thread, so no race; kept for clarity)
+        let g = self.gen.load(SeqCst);
+        if g > since {
+            Poll::Ready(g)
+        } else {
+            Poll::Pending
         }
     }
     /// Resolves at the next moment at which no task is runnable (the scheduler is about to park).
     pub async fn settle(&self) {
-        self.flag.store(false, SeqCst);
-        std::future::poll_fn(|cx| {
-            if self.flag.swap(false, SeqCst) {
-                Poll::Ready(())
-            } else {
-                *self.waker.lock().unwrap() = Some(cx.waker().clone());
-                Poll::Pending
-            }
-        })
-        .await
+        let since = self.generation();
+        std::future::poll_fn(|cx| self.poll_since(since, cx).map(|_| ())).await
     }
-}
-
-impl Idle {
-    /// Like `settle` but does not clear a pending idle notification first (for use inside a
-    /// poll_fn that is re-created at every poll).
     pub async fn settle_nowait(&self) {
-        std::future::poll_fn(|cx| {
-            if self.flag.swap(false, SeqCst) {
-                Poll::Ready(())
-            } else {
-                *self.waker.lock().unwrap() = Some(cx.waker().clone());
-                Poll::Pending
-            }
-        })
-        .await
+        self.settle().await
     }
 }
 
@@ -83,7 +84,13 @@ pub fn run<T, Fut: Future<Output = T>>(ch: &Ch, f: impl FnOnce(Arc<Idle>) -> Fut
         .build()
         .expect("runtime");
     let out = rt.block_on(f(idle));
-    drop(rt);
+    if STUCK.with(|s| s.replace(false)) {
+        // tasks that are still alive may contain scope futures, which abort the process when
+        // dropped before completion: leak the (thread-less) runtime instead of shutting it down
+        std::mem::forget(rt);
+    } else {
+        drop(rt);
+    }
     out
 }
 
@@ -106,6 +113,10 @@ impl Future for Yield {
     }
 }
 
+thread_local! {
+    static STUCK: std::cell::Cell<bool> = const { std::cell::Cell::new(false) };
+}
+
 /// Outcome of `drive`.
 pub enum Driven<T> {
     Done(T),
@@ -119,17 +130,19 @@ pub enum Driven<T> {
 pub async fn drive<T, F: Future<Output = T>>(idle: &Idle, fut: F, mut on_idle: impl FnMut(u32) -> bool) -> Driven<T> {
     let mut fut = Box::pin(fut);
     let mut k = 0;
-    idle.flag.store(false, SeqCst);
+    let mut seen = idle.generation();
     loop {
         let step = std::future::poll_fn(|cx| {
             if let Poll::Ready(r) = fut.as_mut().poll(cx) {
                 return Poll::Ready(Some(r));
             }
-            if idle.flag.swap(false, SeqCst) {
-                return Poll::Ready(None);
+            match idle.poll_since(seen, cx) {
+                Poll::Ready(g) => {
+                    seen = g;
+                    Poll::Ready(None)
+                }
+                Poll::Pending => Poll::Pending,
             }
-            *idle.waker.lock().unwrap() = Some(cx.waker().clone());
-            Poll::Pending
         })
         .await;
         match step {
@@ -138,6 +151,7 @@ pub async fn drive<T, F: Future<Output = T>>(idle: &Idle, fut: F, mut on_idle: i
                 k += 1;
                 if !on_idle(k) {
                     std::mem::forget(fut);
+                    STUCK.with(|s| s.set(true));
                     return Driven::Stuck;
                 }
             }
@@ -149,17 +163,19 @@ pub async fn drive<T, F: Future<Output = T>>(idle: &Idle, fut: F, mut on_idle: i
 pub async fn drive_drop<T, F: Future<Output = T>>(idle: &Idle, fut: F, mut on_idle: impl FnMut(u32) -> bool) -> Driven<T> {
     let mut fut = Box::pin(fut);
     let mut k = 0;
-    idle.flag.store(false, SeqCst);
+    let mut seen = idle.generation();
     loop {
         let step = std::future::poll_fn(|cx| {
             if let Poll::Ready(r) = fut.as_mut().poll(cx) {
                 return Poll::Ready(Some(r));
             }
-            if idle.flag.swap(false, SeqCst) {
-                return Poll::Ready(None);
+            match idle.poll_since(seen, cx) {
+                Poll::Ready(g) => {
+                    seen = g;
+                    Poll::Ready(None)
+                }
+                Poll::Pending => Poll::Pending,
             }
-            *idle.waker.lock().unwrap() = Some(cx.waker().clone());
-            Poll::Pending
         })
         .await;
         match step {
